@@ -619,21 +619,25 @@ impl World {
     /// crate's tungstenite adapter (`ws.rs`) and tungstenite's close / end-of-file / error behaviour are part of the system.
     /// Deliveries of the pipes are the `Step::Deliver` steps of the simulator; `sim.link` stays empty.
     pub fn two_tungstenite(cap_bytes: usize, a: &SideCfg, b: &SideCfg) -> Self {
-        use tokio_tungstenite::{WebSocketStream, tungstenite::protocol::{Role, WebSocketConfig}};
-        // tungstenite's defaults except the size of the read buffer: the default (128 KiB) is allocated per endpoint and
-        // zero-filled on EVERY read of the byte stream (~2 ms per execution, 20x the rest); 4 KiB holds every frame of
-        // the scenarios many times over and changes nothing but the chunking of reads
-        let wscfg = WebSocketConfig::default().read_buffer_size(4096);
         let pipe = crate::bytepipe::BytePipe::new(cap_bytes);
         let mut w = World::two_unconnected();
         w.sim.xport = Some(Rc::new(pipe.clone()));
         for (side, cfg) in [(0, a), (1, b)] {
-            // `from_raw_socket` only wraps the stream: ready at its first poll (the waker it registers is replaced by the
-            // connection task's at the first `poll_next`)
-            let mut mk = Box::pin(WebSocketStream::from_raw_socket(pipe.endpoint(side), if side == 0 { Role::Client } else { Role::Server }, Some(wscfg)));
-            let std::task::Poll::Ready(ws) = mk.as_mut().poll(&mut std::task::Context::from_waker(std::task::Waker::noop())) else { panic!("from_raw_socket not ready at once") };
+            let ws = tungstenite_over(&pipe, side);
             w.add_endpoint_on(side, cfg, ws);
         }
+        w.pipe = Some(pipe);
+        w
+    }
+
+    /// One real endpoint on `side` over a real `WebSocketStream` (side 0: client role, side 1: server role); the other end
+    /// of the byte pipes belongs to the driver, which plays a raw BYTE-level peer (`BytePipe::inject` / `raw_take`).
+    pub fn one_tungstenite(cap_bytes: usize, side: usize, cfg: &SideCfg) -> Self {
+        let pipe = crate::bytepipe::BytePipe::new(cap_bytes);
+        let mut w = World::two_unconnected();
+        w.sim.xport = Some(Rc::new(pipe.clone()));
+        let ws = tungstenite_over(&pipe, side);
+        w.add_endpoint_on(side, cfg, ws);
         w.pipe = Some(pipe);
         w
     }
@@ -783,6 +787,20 @@ impl World {
     pub fn task_done(&self, side: usize) -> bool {
         self.task_idx[side].is_some_and(|i| self.sim.tasks[i].done)
     }
+}
+
+/// A real `WebSocketStream` on end `side` of the byte pipes (side 0: client role, side 1: server role), no HTTP handshake.
+fn tungstenite_over(pipe: &crate::bytepipe::BytePipe, side: usize) -> tokio_tungstenite::WebSocketStream<crate::bytepipe::PipeEnd> {
+    use tokio_tungstenite::{WebSocketStream, tungstenite::protocol::{Role, WebSocketConfig}};
+    // tungstenite's defaults except the size of the read buffer: the default (128 KiB) is allocated per endpoint and
+    // zero-filled on EVERY read of the byte stream (~2 ms per execution, 20x the rest); 4 KiB holds every frame of
+    // the scenarios many times over and changes nothing but the chunking of reads
+    let wscfg = WebSocketConfig::default().read_buffer_size(4096);
+    // `from_raw_socket` only wraps the stream: ready at its first poll (the waker it registers is replaced by the
+    // connection task's at the first `poll_next`)
+    let mut mk = Box::pin(WebSocketStream::from_raw_socket(pipe.endpoint(side), if side == 0 { Role::Client } else { Role::Server }, Some(wscfg)));
+    let std::task::Poll::Ready(ws) = mk.as_mut().poll(&mut std::task::Context::from_waker(std::task::Waker::noop())) else { panic!("from_raw_socket not ready at once") };
+    ws
 }
 
 pub fn opts(rwnd: u32, thr: u32) -> Options {
